@@ -39,6 +39,31 @@ def roots(b, operand, depth=0):
     return out
 
 
+def check_forcing_never_refuses(ctx, fx, cfg, rule):
+    """while the mailbox is open a forced submission (stop, restart, call, ping, interval tick) is never refused: the forcing
+    closure over the bounded queue enqueues through a Sender clone made for this payload. futures-mpsc guarantees one
+    slot per Sender handle and refuses (`Full`) a handle that is still parked from an earlier payload, so a long-lived
+    handle shared by forced payloads refuses under backlog; a fresh clone is never parked. (The unbounded sender never
+    refuses.)"""
+    import chan
+    n = 0
+    for kind, cf, _key in chan.submit_closures(fx):
+        if kind != "forcing" or cf is None:
+            continue
+        ups = cf.get("upvars", [])
+        if not any("futures_channel::mpsc::Sender<" in u for u in ups):
+            continue
+        n += 1
+        b = Body(cf)
+        enq = [t for _bi, t in b.normal_calls() if chan.is_enqueue(t)]
+        fresh = bool(enq)
+        for t in enq:
+            os_ = b.origins(t["args"][0], through_calls=False)
+            fresh = fresh and bool(os_) and all(o.kind == "call" and (b.call_at(o).get("callee") or "").endswith("Clone::clone") and "mpsc::Sender<" in " ".join(b.call_at(o).get("argtys", [])) for o in os_)
+        ctx.require(fresh, rule, "forcing-uses-fresh-sender:%s@%s" % (cf["def"], cfg), "the bounded forcing closure must enqueue through a Sender clone made for this payload (a long-lived handle that is still parked refuses the next forced payload with Full: self-stop / self-restart fail and interval timers end while the actor is alive)", fn=cf["def"], site=cf["loc"], detail={"enqueues": [t["callee"].split("::")[-1] for t in enq]})
+    ctx.floor(rule, "bounded forcing closures (%s)" % cfg, n, 1)
+
+
 def relevant(ty):
     return "dyn channel::TxFn<" in ty or "dyn channel::ForceTxFn<" in ty or ty.startswith("context::id::ContextID") or "UpgradeFn<" in ty or ty.startswith("addr::Addr<") or "futures_util::future::future::shared::Shared<futures_channel::oneshot::Receiver<()>>" in ty
 
@@ -130,6 +155,8 @@ def check_cfg(ctx, fx, cfg):
             check_submit_on_ok(ctx, fx, "R15.4", e, {"context::Context::<A>::stop", "context::Context::<A>::restart"})
         else:
             ctx.viol("R15.4", "exists:" + e, "%s not found" % e)
+    # R15.5 ... and the forcing half never refuses a request while the mailbox is open
+    check_forcing_never_refuses(ctx, fx, cfg, "R15.5")
     # R15.3 birth site
     fc = fx.fn("environment::Environment::<A, R>::from_channel")
     if ctx.require(fc is not None, "R15.3", "from_channel@" + cfg, "Environment::from_channel not found"):
